@@ -19,7 +19,8 @@ CONSTANTS Classes,     \* {"unit", "prefix"}
           Keys,        \* Classes -> set of object keys
           NameTok,     \* names that may be declared ("" = none given)
           SymTok,      \* symbols that may be declared ("" = none given)
-          BadSyms      \* malformed symbols (contain a space, or are not strings)
+          BadSyms,     \* malformed symbols (contain a space, or are not strings): the declaration must fail
+          MaybeSyms    \* questionable symbols (other whitespace): the library may accept or reject them, atomically either way
 
 VARIABLES known, names, syms, byName, bySym, ev
 regs == <<known, names, syms, byName, bySym>>
@@ -46,17 +47,19 @@ Valid(c, k, n, s) == /\ ~(n # "" /\ Taken(byName[c], n, k))
                      /\ ~(s # "" /\ Taken(bySym[c], s, k))
                      /\ s \notin BadSyms
 \* a declaring call for object k (op says which API spelling was used); `fresh` = the call creates k (define)
-Declare(op, c, k, n, s, fresh) ==
-  /\ (fresh => k \notin known[c]) /\ (~fresh /\ op \in {"derive", "alias"} => k \in known[c])
-  /\ IF Valid(c, k, n, s)
-     THEN /\ known' = [known EXCEPT ![c] = @ \cup {k}]
+Commit(op, c, k, n, s) ==
+          /\ known' = [known EXCEPT ![c] = @ \cup {k}]
           /\ names' = [names EXCEPT ![c] = IF n = "" \/ Has(NamesOf(c, k), n) THEN @ ELSE (k :> Append(NamesOf(c, k), n)) @@ @]
           /\ syms' = [syms EXCEPT ![c] = IF s = "" \/ Has(SymsOf(c, k), s) THEN @ ELSE (k :> Append(SymsOf(c, k), s)) @@ @]
           /\ byName' = [byName EXCEPT ![c] = IF n = "" THEN @ ELSE (n :> k) @@ @]
           /\ bySym' = [bySym EXCEPT ![c] = IF s = "" THEN @ ELSE (s :> k) @@ @]
           /\ ev' = Ev(op, c, k, n, s, "ok")
-     ELSE /\ ev' = Ev(op, c, k, n, s, "error")
-          /\ UNCHANGED regs
+Refuse(op, c, k, n, s) == ev' = Ev(op, c, k, n, s, "error") /\ UNCHANGED regs
+Declare(op, c, k, n, s, fresh) ==
+  /\ (fresh => k \notin known[c]) /\ (~fresh /\ op \in {"derive", "alias"} => k \in known[c])
+  /\ IF ~Valid(c, k, n, s) THEN Refuse(op, c, k, n, s)
+     ELSE IF s \in MaybeSyms THEN (Commit(op, c, k, n, s) \/ Refuse(op, c, k, n, s))
+     ELSE Commit(op, c, k, n, s)
 
 \* a lookup by symbol (Unit.resolve_symbol / Prefix.resolve_symbol): exact symbol first, then - for units - the name;
 \* its answer is a function of the registries NOW, whatever was looked up before
